@@ -69,7 +69,8 @@ func runC07(c *Ctx) {
 	c.Rule("C07.O1", "E9", "nbhttp.tokenCharMap and websocket.isTokenOctet equal httpguts.isTokenTable on all 256 byte values", 2)
 	c.Rule("C07.O2", "E9", "chunk size: ParseInt(_, 16, <=63); Content-Length: ParseInt(_, 10, <=63)", 2)
 	c.Rule("C07.O3", "E4", "chunked=true implies delete(Content-Length); parseTrailer returns at once unless chunked; trailer names Transfer-Encoding, Trailer, Content-Length are rejected in both the single and the comma-separated form", 3)
-	c.Rule("C07.O5", "E4,E7", "every capture of a header or trailer value (store of string(data[start:i]) to Parser.headerValue) is on the c == CR edge: the four value states agree with net/http's line-end extent", 1)
+	c.Rule("C07.O5", "E4,E7", "every capture of a header value, trailer value or reason phrase (store of string(data[start:i]) to Parser.headerValue / Parser.status) is on the c == CR edge: the value states agree with net/http's line-end extent", 1)
+	c.Rule("C07.O8", "E9", "the transition relation read off Parse contains the grammar's transitions for empty elements of well-formed messages: empty reason phrase, empty header value, empty trailer value, no body, no trailers", 1)
 	c.Rule("C07.O6", "E7", "both trailer value states check the delivered name off the declared set before OnTrailerHeader", 1)
 	c.Rule("C07.O7", "E4", "message-boundary hygiene: the framing decision (parseTransferEncoding, parseContentLength, parseTrailer, in this order) dominates every entry into the end-of-head state; parseContentLength assigns the length on every successful path; handleMessage resets chunked, header and trailer", 3)
 	c.Rule("C07.O4", "E8", "request.Close: major<1 -> true; 1.0 -> hasClose || !keepAlive; else hasClose, with hasClose / keepAlive set by the Connection values \"close\" / \"keep-alive\"", 1)
@@ -247,7 +248,7 @@ func runC07(c *Ctx) {
 					continue
 				}
 				fa, ok := st.Addr.(*ssa.FieldAddr)
-				if !ok || c.P.FieldKey(fa) != "nbhttp.Parser.headerValue" {
+				if !ok || (c.P.FieldKey(fa) != "nbhttp.Parser.headerValue" && c.P.FieldKey(fa) != "nbhttp.Parser.status") {
 					continue
 				}
 				if _, isConst := st.Val.(*ssa.Const); isConst {
@@ -255,12 +256,12 @@ func runC07(c *Ctx) {
 				}
 				n++
 				if !fi.HasFact(st, isCR) {
-					bad = "a header / trailer value is cut at " + c.Pos(st) + " on a byte other than CR: net/http takes the field value up to the line end (inner spaces belong to the value)"
+					bad = "a header / trailer value or reason phrase is cut at " + c.Pos(st) + " on a byte other than CR: net/http takes the field value up to the line end (inner spaces belong to the value)"
 				}
 			}
 		}
-		if n < 4 && bad == "" {
-			bad = fmt.Sprintf("expected the value capture in the four value states, found %d", n)
+		if n < 5 && bad == "" {
+			bad = fmt.Sprintf("expected the value capture in the four value states and the status state, found %d", n)
 		}
 		c.Cond(bad == "", "C07.O5", fnKey(c.P, parse, "field value ends at CR only"), c.FnPos(parse), fmt.Sprintf("%d captures, all on the c == CR edge", n), bad)
 
@@ -368,6 +369,23 @@ func runC07(c *Ctx) {
 			}
 		}
 		c.Cond(len(missing) == 0, "C07.O7", fnKey(c.P, hm, "per-message state reset"), c.FnPos(hm), "chunked=false, header=nil, trailer=nil unconditionally", fmt.Sprintf("handleMessage does not reset %v: the next message on the connection inherits it", missing))
+	}
+	if parse := c.Fn("C07.O8", "(*nbhttp.Parser).Parse"); parse != nil {
+		got := c.stateTransitions(parse)
+		var missing []string
+		for _, t := range []string{
+			"stateStatusBefore -> stateStatusLF",
+			"stateHeaderValueBefore -> stateHeaderValueLF",
+			"stateBodyTrailerHeaderValueBefore -> stateBodyTrailerHeaderValueLF",
+			"stateHeaderOverLF -> (message complete)",
+			"stateBodyChunkSizeLF -> stateTailCR",
+		} {
+			if !got[t] {
+				missing = append(missing, t)
+			}
+		}
+		c.Cond(len(missing) == 0, "C07.O8", fnKey(c.P, parse, "empty elements of well-formed messages"), c.FnPos(parse), "5 required transitions present",
+			fmt.Sprintf("Parse has no transition %v: a well-formed message with that element empty (which net/http accepts) is not framed the way net/http frames it", missing))
 	}
 }
 
